@@ -163,6 +163,15 @@ func scriptError(kind string) error {
 		return &res.Error{Code: "custom.bad", Message: "bad data", Data: make(chan int)}
 	case "reserr-empty":
 		return &res.Error{}
+	case "reserr-nomsg":
+		// a code but no message: the message member is still a (empty) string
+		return &res.Error{Code: "custom.nomsg"}
+	case "reserr-nocode":
+		return &res.Error{Message: "no code"}
+	case "reserr-nil":
+		// a nil *res.Error in the error interface (a function returning *res.Error
+		// that had nothing to report, passed on unchecked)
+		return (*res.Error)(nil)
 	case "wrapped-reserr":
 		return fmt.Errorf("wrapped: %w", errRes)
 	}
@@ -434,7 +443,7 @@ func replyAlphabet(rtype string, htype res.ResourceType) []act {
 	common := func() {
 		add("notfound")
 		add("invalidquery", "", "bad query")
-		add("error", "reserr", "plain", "reserr-baddata")
+		add("error", "reserr", "plain", "reserr-baddata", "reserr-empty", "reserr-nomsg", "reserr-nocode", "reserr-nil")
 	}
 	switch rtype {
 	case "access":
